@@ -112,6 +112,7 @@ def single_ops(spec, with_copies=True):
                     yield ["add_node", t, 0, i, deep, None]
                 yield ["copy_to", i, t, True, True, True]
                 yield ["copy_to", i, t, False, None, False]
+                yield ["copy_to", i, t, False, None, True]
     yield ["clear"]
     for rev in (False, True):
         for deep in (None, True, False):
@@ -119,6 +120,11 @@ def single_ops(spec, with_copies=True):
     yield ["filter", [flat[i][0][0] for i in range(0, n, 2)]]
     yield ["add_tree", -1, None, None]
     yield ["add_tree", -1, True, None]
+    # the tree copied into itself: below every node (the copy shows the tree as it was before), and at top level
+    for t in [-1] + list(range(n)):
+        yield ["add_own_tree", t, None, None]
+        yield ["add_own_tree", t, True, False]
+        yield ["own_copy_to", t, None]
     if n:
         yield ["add_tree", 0, None, None]
         yield ["add_tree", -1, ["c", 0], True]
